@@ -3,7 +3,7 @@
    Tables, dispatch bounds and low-end constants come from gen/Tables.v = the current source text of /repo. *)
 From Coq Require Import ZArith.
 Require Import C12.gen.Tables.
-From C12 Require Import PrimeB Model ProofsSweep ProofsTable ProofsTab12 ProofsPrimes16 ProofsNext.
+From C12 Require Import PrimeB Model ProofsSweep ProofsTable ProofsTab12 ProofsPrimes16 ProofsNext ProofsFactor.
 Local Open Scope Z_scope.
 
 Theorem C12_isprime_exact_below_65536 : Isprime_table_stmt.          Proof. exact isprime_table. Qed.
@@ -36,3 +36,9 @@ Theorem C12_prevprime_at_3 : Prevprime_at_3_stmt.                    Proof. exac
 Print Assumptions C12_prevprime_at_3.
 Theorem C12_protected_prevprime_at_3 : Protected_prevprime_at_3_stmt. Proof. exact protected_prevprime_at_3. Qed.
 Print Assumptions C12_protected_prevprime_at_3.
+Theorem C12_set_distinct_factors_product_abs_n : Set2_stmt.             Proof. exact set2_correct. Qed.
+Print Assumptions C12_set_distinct_factors_product_abs_n.
+Theorem C12_set_terminates : Set2_terminates_stmt.                        Proof. exact set2_terminates. Qed.
+Print Assumptions C12_set_terminates.
+Theorem C12_factor_divides_prime_when_small_factor : Factor_stmt.         Proof. exact factor_correct. Qed.
+Print Assumptions C12_factor_divides_prime_when_small_factor.
